@@ -1381,7 +1381,7 @@ impl Monitor for C15 {
          if / else-if chain; arr[k] -> arr[R] after 'R = k;' (both spellings get the assignment); call statement or 'l = f(args)' -> the callee's body in place \
          with fresh locals for its parameters and locals). Both spellings are compiled, assembled and run from the same 4 inputs at -O0 and -O1 (-O2/-O3 on a \
          fifth); their final states (globals, X, Y) must be equal. A vector is judged only when the reference interpreter finds both spellings defined and \
-         equal. non-trivial = the two spellings compile to different code"
+         equal. Enumerated core: 4 targets x 16 statement forms x 6 tests of what was written, plus 38 hand-written pairs (for / while, call versus body, negated short-circuit conditions with a test of an operand in the else part, comparisons as local initialisers). non-trivial = the two spellings compile to different code"
             .into()
     }
     fn assumptions(&self) -> Vec<String> {
